@@ -3,8 +3,13 @@ import itertools
 from gen import G, Z, sx, ohg_types, lohg_types, BACKENDS
 
 
+import os
+QUICK_SCALE = int(os.environ.get("VERIF_QUICK_SCALE", "6"))
+
+
 def N(tier, quick, thorough):
-    return quick if tier == "quick" else thorough
+    # the quick tier runs QUICK_SCALE times the base number of random iterations (a case costs about a millisecond)
+    return min(quick * QUICK_SCALE, thorough) if tier == "quick" else thorough
 
 
 def mutate_list(g, l, hi):
